@@ -9,6 +9,7 @@ one (seed, hash seed, code) triple is one execution.
 
 from __future__ import annotations
 
+import dis
 import os
 import random
 import sys
@@ -53,7 +54,7 @@ class HarnessError(Exception):
 
 
 class _CallerState:
-    __slots__ = ("name", "op", "line", "since_resume", "resumed")
+    __slots__ = ("name", "op", "line", "since_resume", "resumed", "prev_hot")
 
     def __init__(self, name: str) -> None:
         self.name = name
@@ -61,6 +62,29 @@ class _CallerState:
         self.line = 0
         self.since_resume = 0
         self.resumed = False
+        self.prev_hot = False
+
+
+# Lines that write state other callers may see: attribute / global stores (a memo field on a graph, a
+# module-level holder) and item stores or deletions.  Policy 'hot' pre-empts preferentially right
+# before and right after such a line -- the instants at which a half-updated shared structure is visible.
+_HOT_OPS = {"STORE_ATTR", "STORE_GLOBAL", "DELETE_ATTR", "DELETE_GLOBAL", "STORE_SUBSCR", "DELETE_SUBSCR"}
+_hot_cache: dict[Any, frozenset] = {}
+
+
+def hot_lines(code: Any) -> frozenset:
+    hl = _hot_cache.get(code)
+    if hl is None:
+        lines = set()
+        cur = None
+        for ins in dis.get_instructions(code):
+            if ins.starts_line is not None:
+                cur = ins.starts_line
+            if ins.opname in _HOT_OPS and cur is not None:
+                lines.add(cur)
+        hl = frozenset(lines)
+        _hot_cache[code] = hl
+    return hl
 
 
 class Sched:
@@ -118,6 +142,7 @@ class Sched:
             else:
                 self.abort_dyn[(a["c"], a["o"])] = (a["after"], a["exc"])
         self.calls: dict[str, int] = {}
+        self.hot_points = 0
         # PCT state
         self.pct_prio: dict[str, float] = {}
         self.pct_change: set[int] = set()
@@ -270,6 +295,19 @@ class Sched:
         elif len(self.live) > 1:
             if self.policy == "uniform":
                 if self.rng.random() < self.p:
+                    others = [n for n in self.live if n != me]
+                    to = others[self.rng.randrange(len(others))]
+            elif self.policy == "hot":
+                hot = frame is not None and frame.f_lineno in hot_lines(frame.f_code)
+                pp = self.p
+                if st.prev_hot:
+                    pp = max(pp, 0.5)  # the store has just been executed
+                elif hot:
+                    pp = max(pp, 0.25)  # about to be executed (a check-then-act window closes here)
+                st.prev_hot = hot
+                if hot:
+                    self.hot_points += 1
+                if self.rng.random() < pp:
                     others = [n for n in self.live if n != me]
                     to = others[self.rng.randrange(len(others))]
             elif self.policy == "pct":
